@@ -7,6 +7,7 @@ CONSTANTS
   OutKeys <- AOutKeys
   InKeys <- AInKeys
   Senders = {2}
+  Mirror = FALSE
   Codes = {"unreachable"}
 PROPERTIES Recovers
 CHECK_DEADLOCK FALSE
